@@ -49,7 +49,8 @@ from ..lib_C14 import (BASIN_TYPES, CORE, DCORBASE, FB, FDICT, H5BASE,
                        enclosing_conditions, fact_guard, files_mentioning,
                        fold, fold_basin_classes, method, self_attr_writes,
                        run_straight, single_assign, stmt_of, basin_loop,
-                       expand_partials, inline_module_helpers, interpret,
+                       class_constants, expand_partials,
+                       inline_module_helpers, interpret, method_mro,
                        module_functions)
 
 ASSUMPTIONS = [
@@ -866,11 +867,15 @@ def r142(ctx, repo, sites):
 
     # (d) BasinProxy forwards ignore_basins to the wrapped dataset: decided
     # by interpreting __getattr__ for the attribute name
-    ga = repo.func(FB, "BasinProxy.__getattr__")
+    bpc = repo.cls(FB, "BasinProxy")
+    ga = method_mro(repo, FB, bpc, "__getattr__")
+    if ga is None:
+        raise AnalysisError("anchor vanished: BasinProxy.__getattr__")
     if len(ga.args.args) != 2:
         raise AnalysisError("BasinProxy.__getattr__: signature changed")
     item = ga.args.args[1].arg
-    consts = {}
+    consts = {f"self.{k}": v for k, v in
+              class_constants(repo, FB, bpc).items()}
     for st in repo.tree(FB).body:
         if isinstance(st, ast.Assign) and len(st.targets) == 1 \
                 and isinstance(st.targets[0], ast.Name):
@@ -884,9 +889,21 @@ def r142(ctx, repo, sites):
         except Unknown as u:
             raise AnalysisError(f"BasinProxy.__getattr__: cannot interpret "
                                 f"`{u}`")
+        def wrapped_ds(e):
+            """`self.ds`, also spelled getattr(self, <name folding to
+            "ds">)"""
+            if txt(e) == "self.ds":
+                return True
+            if isinstance(e, ast.Call) and call_name(e) == "getattr" \
+                    and len(e.args) == 2 and is_name(e.args[0], "self"):
+                try:
+                    return Mini({**consts, item: nm}).ev(e.args[1]) == "ds"
+                except Unknown:
+                    return False
+            return False
         ok = kind == "return" and isinstance(val, ast.Call) and call_name(
-            val) == "getattr" and len(val.args) >= 2 and txt(
-            val.args[0]) == "self.ds" and is_name(val.args[1], item)
+            val) == "getattr" and len(val.args) >= 2 and wrapped_ds(
+            val.args[0]) and is_name(val.args[1], item)
         if kind == "return" and not ok and not (
                 isinstance(val, ast.Call) and call_name(val) == "getattr"):
             raise AnalysisError("BasinProxy.__getattr__: forwarding idiom "
@@ -1180,7 +1197,9 @@ def r142_locks(ctx, repo):
 
 # ----------------------------------------------------------------------
 def r143(ctx, repo, sites):
-    vb = repo.func(FB, "Basin.verify_basin")
+    vb = inline_module_helpers(repo, FB, repo.func(FB, "Basin.verify_basin"),
+                               methods=True, keep=KEEP_CALLS)
+    vb_names = {"verify_basin"} | set(getattr(vb, "inlined_names", ()))
     REF = "self.measurement_identifier"
     BAS = ("self.get_measurement_identifier()",
            "self.ds.get_measurement_identifier()")
@@ -1377,7 +1396,12 @@ def r143(ctx, repo, sites):
                      "self.measurement_identifier is None"
                      for t, pol in enclosing_conditions(node, fn))
         else:
-            ok = rel == FB and any(node is v for v in verdicts)
+            fn_ = node
+            while fn_ is not None and not isinstance(fn_, ast.FunctionDef):
+                fn_ = getattr(fn_, "parent", None)
+            ok = rel == FB and fn_ is not None and fn_.name in vb_names \
+                and isinstance(getattr(fn_, "parent", None), ast.ClassDef) \
+                and fn_.parent.name == "Basin"
         ctx.ob("R14.3", ok,
                "the verified flag is set by the comparison, cleared, or "
                "waived for a referrer without identifier" if ok else
@@ -1512,7 +1536,9 @@ def r143(ctx, repo, sites):
                node=c_, key=f"{META}::CFG_METADATA::converter of [{sec}] "
                f"{key} keeps the identifier")
     # the writer applies the same law
-    sb = repo.func(WRITER, "RTDCWriter.store_basin")
+    sb = inline_module_helpers(
+        repo, WRITER, repo.func(WRITER, "RTDCWriter.store_basin"),
+        methods=True, keep=("store_feature", "write_text", "write_ndarray"))
     cur = [n.targets[0].id for n in walk(sb) if isinstance(n, ast.Assign)
            and isinstance(n.targets[0], ast.Name)
            and "run identifier" in txt(n.value)]
